@@ -14,6 +14,10 @@ CLAIMED = {
                 ref='DESIGN.md section 6 C06'),
     'C09': dict(text='Every eval_number node on every Integer/Float operand-variant combination with arbitrary payloads: z3 (bit-vectors + FP, Int for exact powers) decides exact Integer results, the float fallback and correct rounding. Assumes the contract of Number::from, which C18 establishes.',
                 ref='DESIGN.md section 6 C09'),
+    'C10': dict(text='(T) the five real tokenizers executed from MIR on every README name, alias and word constant followed by arbitrary characters: the function token is produced exactly when the name is this evaluator\'s and is directly followed by `(`, the longest name wins, foreign names give no token; (E) every function node of eval_f64 / eval_number (and the exact ones of eval_i64) applies the library function of that name to its arguments in order (libm uninterpreted; rounding, abs, sqrt, sgn, n! exact).',
+                ref='DESIGN.md section 6 C10'),
+    'C19': dict(text='Tokenizer::next of all five tokenizers on literal templates with n symbolic digits (n up to 40, thorough 100), every point position and an arbitrary following character: the Num token carries exactly the rational value of the literal (Integer/Float kind in eval_number, exact scale in eval_decimal), exactly the literal is consumed, and no conversion can panic.',
+                ref='DESIGN.md section 6 C19'),
     'C11': dict(text='The aggregate arms of ast::eval (eval_i64, eval_f64, eval_number) executed from MIR on argument vectors of 1..3 (thorough 4) arbitrary values and with a failing argument in each position; z3 compares with the order-independent definition. gcd/lcm: operands bounded (see evidence), compared with an unrolled reference Euclid.',
                 ref='DESIGN.md section 6 C11'),
     'C18': dict(text='Both From impls of Number executed from MIR on one fully symbolic argument: z3 decides the property for all 2^64 doubles and all i64 (no bound on the argument).',
